@@ -73,6 +73,26 @@ def core_det(tier):
         # x0 on a bound / x0 absent
         add(2, S.box_geom(2, -5, 5, -3, 3, x0=[5.0, -5.0]), _quad(2, r, mn=[4.0, -4.5]), tags=["x0onbound"])
         add(2, S.box_geom(2, -5, 5, -3, 3, x0=None), _quad(2, r), tags=["nox0"])
+        # x0 just inside the effective upper bound of a log-transformed coordinate: in internal coordinates
+        # it is within half a search-mesh step of the bound, so the mesh-snapped start may have to be nudged back
+        for j in range(8 if tier == "quick" else 14):
+            frac = r.choice([0.9982, 0.9985, 0.9987, 0.99885, 0.99895])
+            lbv, ubv = 1e-3 * r.choice([1, 3, 0.2]), r.choice([1000.0, 2500.0, 640.0, 87.0])
+            plv, puv = lbv * r.choice([30, 3000, 700]), ubv * r.choice([0.7, 0.05, 0.31])
+            x0v = lbv + frac * (ubv - lbv)
+            two = (j % 3 == 0)
+            add(2 if two else 1,
+                {"lb": [lbv] + ([-4] if two else []), "ub": [ubv] + ([4] if two else []),
+                 "plb": [plv] + ([-1] if two else []), "pub": [puv] + ([1] if two else []),
+                 "x0": [x0v] + ([0.3] if two else [])},
+                {"family": "logquad", "min": [ubv * 5] + ([1.0] if two else [])},
+                {"max_fun_evals": 30}, tags=["x0nearbound", "log"])
+        for j in range(2):
+            lbv, ubv = -r.choice([3.0, 7.3, 11.1]), r.choice([2.9, 6.7, 13.3])
+            frac = r.choice([0.9982, 0.9987, 0.99895])
+            x0v = (lbv + frac * (ubv - lbv)) if j == 0 else (ubv - frac * (ubv - lbv))
+            add(1, {"lb": [lbv], "ub": [ubv], "plb": [lbv * 0.31], "pub": [ubv * 0.47], "x0": [x0v]},
+                {"family": "linear", "w": [-1.0 if j == 0 else 1.0]}, {"max_fun_evals": 30}, tags=["x0nearbound", "lin"])
         # widths from tiny to huge
         add(1, {"lb": [-1e-6], "ub": [1e-6], "plb": [-5e-7], "pub": [5e-7], "x0": [1e-7]},
             {"family": "quad", "min": [3e-7], "eig": [1e12], "rot_seed": 0}, tags=["tinywidth"])
@@ -183,6 +203,12 @@ def core_noisy(tier):
                 {"max_fun_evals": b, "noise_final_samples": 10}, tags=["declared", "budget"])
         add(2, S.box_geom(2, x0=[2.0, 2.0]), _quad(2, r, cond=5.0), {"mode": "auto", "sigma": 1.0},
             {"max_fun_evals": 48, "noise_final_samples": 4}, tags=["auto", "budget"])
+        # auto-detected noise with a budget so tight that the final-sample reserve is clamped
+        for b in (35, 38, 43):
+            add(2, S.box_geom(2, x0=[2.0, 2.0]), _quad(2, r, cond=5.0), {"mode": "auto", "sigma": 1.0},
+                {"max_fun_evals": b, "noise_final_samples": 10}, tags=["auto", "budget", "reserve_clamped"])
+        add(2, S.box_geom(2, x0=[2.0, 2.0]), _quad(2, r, cond=5.0), {"mode": "specified", "sigma": 1.0, "sd_kind": "hetero"},
+            {"max_fun_evals": 37, "noise_final_samples": 10}, tags=["specified", "budget", "reserve_clamped"])
     return out
 
 
